@@ -58,9 +58,38 @@ Structs(E) ==
   \cup { St(<<F(nA, P(St(<<F(nB, x)>>)))>>) : x \in {I(7), NilSl} }
   \cup { St(<<>>) }
 
+\* typed containers, json.Number, and values of types with marshalling methods
+TSl(z, e) == [g |-> "tslice", nil |-> FALSE, e |-> e, z |-> z]
+NilTSl(z) == [g |-> "tslice", nil |-> TRUE, e |-> <<>>, z |-> z]
+TMp(z, m) == [g |-> "tmap", nil |-> FALSE, m |-> m, z |-> z]
+NilTMp(z) == [g |-> "tmap", nil |-> TRUE, m |-> <<>>, z |-> z]
+Nm(l) == [g |-> "number", lit |-> l]
+Ma(t) == [g |-> "marsh", text |-> t, fail |-> FALSE]
+MaFail == [g |-> "marsh", text |-> <<49>>, fail |-> TRUE]
+Tx(t) == [g |-> "textm", text |-> t]
+Rd(x) == [g |-> "redir", v |-> x]
+Tr(b) == [g |-> "trust", b |-> b]
+Typed == { NilTSl(I(0)), TSl(I(0), <<>>), TSl(I(0), <<I(7), I(-12)>>), TSl(S(<<>>), <<S(<<60>>), S(<<>>)>>), TSl(NilP(I(0)), <<NilP(I(0)), P(I(7))>>),
+           NilTMp(I(0)), TMp(I(0), <<>>), TMp(I(0), <<KV(<<98>>, I(1)), KV(<<97>>, I(2))>>), TMp(NilSl, <<KV(<<60>>, Sl(<<I(1)>>)), KV(<<>>, NilSl)>>),
+           Nm(<<49,46,48>>), Nm(<<49,101,52,48,48>>), Nm(<<45,48>>),
+           TSl(Nm(<<48>>), <<Nm(<<49>>), Nm(<<48,46,49,48>>)>>) }
+Customs == { Ma(<<123,34,97,34,32,58,32,49,125>>),          \* {"a" : 1}
+             Ma(<<34,60,226,128,168,34>>),                  \* "<U+2028>"
+             Ma(<<32,91,49,44,32,50,93,10>>),               \*  [1, 2]\n
+             Ma(<<110,117,108>>),                           \* nul   (ill-formed: Marshal fails)
+             Ma(<<>>), MaFail,
+             Tx(<<97,60,98>>), Tx(<<>>), Tx(<<255,34>>),
+             Rd(I(7)), Rd(Nil), Rd(Mp(<<KV(<<98>>, S(<<60>>)), KV(<<97>>, Ma(<<91,32,93>>))>>)), Rd(Ma(<<91,32,93>>)), Rd(MaFail),
+             Tr(<<123,34,120,34,58,32,49,125>>),            \* {"x": 1}  written as it is
+             Tr(<<60,114,97,119,62>>), Tr(<<>>) }           \* <raw>, nothing
+CustomUses(C) == C \cup { Sl(<<x, I(7)>>) : x \in C } \cup { Mp(<<KV(<<107>>, x)>>) : x \in C } \cup { P(x) : x \in C }
+                   \cup { St(<<F(nA, x), F(nB, I(7))>>) : x \in C } \cup { St(<<Om(F(nA, x))>>) : x \in C } \cup { St(<<Dash(F(nA, x)), F(nx, x)>>) : x \in C }
+                   \cup { TSl(x, <<x, x>>) : x \in C } \cup { NilP(x) : x \in {Ma(<<49>>), Tx(<<97>>), Rd(I(7)), Tr(<<49>>)} }
+
 L1 == Scalars \cup Containers(Scalars)
 L2 == L1 \cup Structs(L1 \ {NilP(I(0)), NilP(S(<<>>))}) \cup Structs({NilP(I(0))})
-GU == IF Level = 1 THEN L1 ELSE L2
+L3 == L2 \cup Typed \cup Structs(Typed) \cup CustomUses(Customs)
+GU == IF Level = 1 THEN L1 ELSE IF Level = 2 THEN L2 ELSE L3
 
 VARIABLES v, done
 gvars == <<v, done>>
@@ -69,8 +98,33 @@ GNext == ~done /\ done' = TRUE /\ UNCHANGED v
 GSpec == GInit /\ [][GNext]_gvars
 
 \* what is written is well-formed JSON, free of raw HTML characters when escaping is on
+RECURSIVE HasCustom(_)
+HasCustom(x) ==
+  CASE x.g \in {"marsh", "textm", "redir", "trust"} -> TRUE
+    [] x.g \in {"slice", "tslice"} -> \E i \in 1..Len(x.e) : HasCustom(x.e[i])
+    [] x.g \in {"map", "imap", "tmap"} -> \E i \in 1..Len(x.m) : HasCustom(x.m[i].v)
+    [] x.g = "ptr" -> HasCustom(x.v)
+    [] x.g = "struct" -> \E i \in 1..Len(x.f) : HasCustom(x.f[i].v)
+    [] OTHER -> FALSE
+RECURSIVE HasTrust(_)
+HasTrust(x) ==
+  CASE x.g = "trust" -> TRUE
+    [] x.g = "redir" -> HasTrust(x.v)
+    [] x.g \in {"slice", "tslice"} -> \E i \in 1..Len(x.e) : HasTrust(x.e[i])
+    [] x.g \in {"map", "imap", "tmap"} -> \E i \in 1..Len(x.m) : HasTrust(x.m[i].v)
+    [] x.g = "ptr" -> HasTrust(x.v)
+    [] x.g = "struct" -> \E i \in 1..Len(x.f) : HasTrust(x.f[i].v)
+    [] OTHER -> FALSE
+\* (what a TrustMarshaler writes is its own business: only values without one are claimed to give well-formed output)
 WellFormedOut ==
-  \A esc \in BOOLEAN : LET b == GoMarshal(v, esc) IN ParseText(b).ok /\ ParseText(b).v = AsRead(GoToJson(v, esc))
+  \A esc \in BOOLEAN :
+     (~GoFails(v) /\ ~GoUnspecified(v) /\ ~HasTrust(v)) =>
+        LET b == GoMarshal(v, esc) IN
+        /\ ParseText(b).ok
+        /\ ~HasCustom(v) => ParseText(b).v = AsRead(GoToJson(v, esc))
+        /\ esc => \A i \in 1..Len(b) : b[i] \notin {60, 62, 38}
 
-Emit == IF EmitOn THEN PrintT(ToJson([fam |-> "goenc", g |-> v, esc |-> GoMarshal(v, TRUE), raw |-> GoMarshal(v, FALSE)])) ELSE TRUE
+Emit == IF EmitOn THEN PrintT(ToJson([fam |-> "goenc", g |-> v, fails |-> GoFails(v), custom |-> HasCustom(v), dc |-> GoUnspecified(v),
+                                       esc |-> IF GoFails(v) \/ GoUnspecified(v) THEN <<>> ELSE GoMarshal(v, TRUE),
+                                       raw |-> IF GoFails(v) \/ GoUnspecified(v) THEN <<>> ELSE GoMarshal(v, FALSE)])) ELSE TRUE
 =============================================================================
